@@ -167,8 +167,25 @@ def drive_spec(spec):
            'wired': [], 'raised': ''}
     try:
         with contextlib.redirect_stdout(io.StringIO()):
-            batch = read_input_dict(copy.deepcopy(data), '/nonexistent/out.json',
-                                    verbose=False)
+            # the same specification through the entry points a user has: the
+            # dictionary, or an input file (plain or gzipped) as `panqec run` reads it
+            form = (len(json.dumps(spec)) + len(spec.get('runs', []))) % 3
+            if form == 0:
+                batch = read_input_dict(copy.deepcopy(data), '/nonexistent/out.json',
+                                        verbose=False)
+            else:
+                import gzip
+                import tempfile
+                from panqec.simulation import read_input_json
+                with tempfile.TemporaryDirectory(dir=common.scratch_dir('c13f')) as td:
+                    f_ = os.path.join(td, 'input_bias_0.5.json' + ('.gz' if form == 2 else ''))
+                    if form == 2:
+                        with gzip.open(f_, 'wb') as fh:
+                            fh.write(json.dumps(data).encode())
+                    else:
+                        with open(f_, 'w') as fh:
+                            json.dump(data, fh)
+                    batch = read_input_json(f_, '/nonexistent/out.json')
         for sim in batch._simulations:
             rec['observed'].append(project_sim(sim))
             rec['wired'].append(bool(sim.decoder.code is sim.code
